@@ -57,7 +57,6 @@ func resumeRequestRule(c *Ctx, rule string) (*ssa.Function, *ssa.Function) {
 	rewatch := p.CallTo("(" + pkgAPI + ".StateClient).Watch")
 	recv := ClosureWith(wa, rewatch)
 
-
 	if !c.NeedFunc(rule, recv, "watchAdapter receive helper (closure containing the re-Watch)") {
 		return nil, nil
 	}
@@ -183,11 +182,13 @@ func runC13(c *Ctx) {
 	c.Rule("R13.2", "E1", "retry only with retries enabled and a bookmark seen; invalid bookmark / exhausted backoff / done context end the helper", 7)
 
 	c.mustCutEach("R13.2", "re-Watch", recv, rewatch, 1, map[string]EdgePred{
-		"first Recv failed":     FactEdge("nonnil(call:(google.golang.org/grpc.ServerStreamingClient[*]).Recv(*)#1)"),
-		"retries not disabled":  FactEdge("false(*free:param#0.options.DisableWatchRetry)"),
-		"a bookmark was seen":   FactEdge("nonnil(free:*.Bookmark)", "nonnil(*free:var:[]byte)"),
-		"context still alive":   FactEdge("nil(call:(context.Context).Err(free:param#1))"),
-		"backoff not exhausted": func(e EdgeInfo) bool { return strings.HasPrefix(e.Facts[0], "ne(call:(*github.com/cenkalti/backoff/v4.ExponentialBackOff).NextBackOff(") },
+		"first Recv failed":    FactEdge("nonnil(call:(google.golang.org/grpc.ServerStreamingClient[*]).Recv(*)#1)"),
+		"retries not disabled": FactEdge("false(*free:param#0.options.DisableWatchRetry)"),
+		"a bookmark was seen":  FactEdge("nonnil(free:*.Bookmark)", "nonnil(*free:var:[]byte)"),
+		"context still alive":  FactEdge("nil(call:(context.Context).Err(free:param#1))"),
+		"backoff not exhausted": func(e EdgeInfo) bool {
+			return strings.HasPrefix(e.Facts[0], "ne(call:(*github.com/cenkalti/backoff/v4.ExponentialBackOff).NextBackOff(")
+		},
 	})
 
 	fp := p.EdgeSuccs(recv, "eq(call:google.golang.org/grpc/status.Code(*),const:9)")
@@ -261,7 +262,7 @@ func runC13(c *Ctx) {
 	// ---------- R13.4 terminal error
 	c.Rule("R13.4", "E1", "helper/decoding errors: one Errored event, then the goroutine returns", 3)
 
-	sendErr := p.CallTo("dyn:closure:" + FuncName(wa) + "$1", "closure:"+FuncName(wa)+"$1")
+	sendErr := p.CallTo("dyn:closure:"+FuncName(wa)+"$1", "closure:"+FuncName(wa)+"$1")
 	se := ClosureWith(wa, func(in ssa.Instruction) bool {
 		return StoreToField("Event", "Type")(in) && p.Desc(in.(*ssa.Store).Val) == p.ConstVal(pkgState, "Errored")
 	})
